@@ -21,7 +21,7 @@ RULE = ("subject = transform family x configuration (tanh conditioners to keep R
         "difference is non-zero (> 1e-8)")
 ASSUMPTIONS = ["float64; central differences with h = 1e-5 and h/2; accept relative error <= 1e-5 (observed <= 4e-9) ",
                "points where the two step sizes disagree by > 1e-4 relative are kinks and are resampled (at most 3 times)"]
-REQUIRED_COUNTS = ["fd_comparisons", "backward_calls", "per_tensor_checks"]
+REQUIRED_COUNTS = ["fd_comparisons", "backward_calls", "per_tensor_checks", "f32_gradient_comparisons"]
 BUDGET = {"case_timeout": {"quick": 400, "thorough": 3000}}
 H = 1e-5
 RTOL = 1e-5
@@ -234,6 +234,37 @@ def check_direction(r, model, kind, label, direction, x, ctx, params, g, case, c
             r.cell(label, direction, mode, what)
         return "ok"
 
+    # ---- float32 twin: the gradients users actually get must agree with the float64 ones (norm-wise, 5 %)
+    if kind == "transform" and "umnn" not in label and "umnn" not in str(cfg) and not case.get("pre"):
+        try:
+            m32 = copy.deepcopy(model).float()
+            m32.zero_grad(set_to_none=True)
+            x32 = x.float().requires_grad_(True)
+            c32 = ctx.float().requires_grad_(True) if ctx is not None else None
+            L32 = functional(m32, kind, direction, x32, c32, w.float(), v.float())
+            L32.backward()
+            r.ev()
+            r.count("f32_gradient_comparisons")
+            pairs = [("inputs", x32.grad, gx)]
+            if not case.get("inputs_only"):
+                g32 = {n: p.grad for n, p in m32.named_parameters()}
+                both = [(g32[n], grads[n]) for n, _ in params if grads.get(n) is not None and g32.get(n) is not None]
+                if both:
+                    pairs.append(("parameters", torch.cat([a.reshape(-1) for a, _ in both]), torch.cat([b.reshape(-1) for _, b in both])))
+            for what, a, b in pairs:
+                if a is None or b is None or not torch.isfinite(b).all():
+                    continue
+                if not torch.isfinite(a).all():
+                    r.viol("nonfinite_grad", "%s float32 gradient is not finite (float64 is)" % label, what=what, **det)
+                    continue
+                nb = float(b.norm())
+                err = float((a.double() - b).norm())
+                r.worst("f32_grad_relerr/tol", err / (0.05 * nb + 1e-3))
+                if err > 0.05 * nb + 1e-3 and nb < 1e6:
+                    r.viol("f32_gradient", "%s float32 gradient disagrees with the float64 gradient" % label, what=what,
+                           rel_err=err / max(nb, 1e-30), **det)
+        except Exception as e:
+            r.count("f32_twin_raised")
     if case.get("inputs_only"):
         params = []
     # ---- all parameters jointly
